@@ -54,6 +54,10 @@ def family(ctx):
         "cfg unwind=1 m=1 | T0: anew 0; spawn 1; lock 0; join 1; unlock 0; adrop 0 | T1: lock 0; unlock 0",
         "cfg unwind=1 m=1 | T0: spawn 1; lock 0; join 1; unlock 0 | T1: lock 0; unlock 0",
         "cfg unwind=1 m=1 | T0: tnew 0; spawn 1; lock 0; join 1; unlock 0; tdrop 0 | T1: lock 0; unlock 0",
+        # the closure of a thread that never started owns an Arc handle when the iteration fails (finding F11: repaired)
+        "cfg unwind=1 | T0: anew 0; aclone 0 1; spawnown 1 1; panic | T1: adrop 1",
+        "cfg unwind=1 | T0: anew 0; aclone 0 1; aclone 0 2; spawnown 1 1; spawnown 2 2; panic | T1: adrop 1 | T2: adrop 2",
+        "cfg unwind=1 c=1 | T0: anew 0; aclone 0 1; spawnown 1 1; spawn 2; cwr 0 1; join 2 | T1: adrop 1 | T2: cwr 0 2",
         # values owned by the execution (thread-locals whose destructor performs a loom operation, lazy statics) alive
         # when an iteration fails (finding F28: repaired)
         "cfg unwind=1 tlsdtor=1 x=1 | T0: tls 0; panic",
